@@ -8,6 +8,7 @@ The local field function `F` is arbitrary: the theorems hold for every source cl
 import MagpyVerif.Lemmas.Level2Compose
 import MagpyVerif.Lemmas.OctaCarrier
 import MagpyVerif.Lemmas.Level2Post
+import MagpyVerif.Lemmas.Audit2C04
 import Mathlib.Algebra.GroupWithZero.Action.Units
 import Mathlib.Algebra.Ring.Int.Units
 namespace MagpyVerif.C03
@@ -199,6 +200,43 @@ theorem sum_commutes_with_rotation (vmin vmax : V → V → V) (Q : G) (l : List
     induction vs generalizing v with
     | nil => rfl
     | cons w ws ih => simp only [List.map_cons, List.foldl_cons, ← smul_add]; exact ih (v + w)
+/-- (audit2) the dataframe statement at full strength: the whole `DataFrame` value (index columns AND value column, not
+only their `zip` — `dataframeRows` truncates to the shorter of the two) or the error exit is unchanged -/
+theorem covariance_after_postprocessing_dataframe_full (flipX : V → V) (Q : G) (t : V) (entries : List (Entry G V))
+    (sensors : List (Sens G V)) (sumup : Bool) (agg : Option (List V → V)) (hs : ∀ k ∈ sensors, k.WF) :
+    dataframeF flipX (entries.map (Entry.moved Q t)) (sensors.map (Sens.moved Q t)) sumup agg =
+      dataframeF flipX entries sensors sumup agg := by
+  by_cases hbad : BadInputF entries sensors agg
+  · have e1 : dataframeF flipX entries sensors sumup agg = .error .badUserInput := by
+      have := (level2CoreF_error_iff flipX entries sensors sumup agg .badUserInput).mpr ⟨rfl, hbad⟩
+      unfold dataframeF; rw [this]
+    have e2 : dataframeF flipX (entries.map (Entry.moved Q t)) (sensors.map (Sens.moved Q t)) sumup agg =
+        .error .badUserInput := by
+      have := (level2CoreF_error_iff flipX (entries.map (Entry.moved Q t)) (sensors.map (Sens.moved Q t)) sumup agg
+        .badUserInput).mpr ⟨rfl, (badInputF_moved Q t entries sensors agg).mpr hbad⟩
+      unfold dataframeF; rw [this]
+    rw [e1, e2]
+  · have he : ∀ e ∈ entries, e.leaves ≠ [] := fun e he hl => hbad (Or.inr (Or.inr (Or.inl ⟨e, he, hl⟩)))
+    rw [dataframeF_ok flipX entries sensors sumup agg hbad,
+      dataframeF_ok flipX _ _ sumup agg (fun h => hbad ((badInputF_moved Q t entries sensors agg).mp h)),
+      coreBF_moved flipX Q t entries sensors sumup agg he hs, srcIds_moved, flatMap_leaves_moved, pathLen_moved,
+      map_pixShape_moved, List.length_map]
+
+/-- (audit2) **position observers with `pixel_agg="sum"`, for the function the integer driver runs** (`getBH … .sum`): the
+hypothesis `hagg` of `covariance_positions_after_postprocessing` is discharged (`sum_commutes_with_rotation`), nothing is
+assumed.  (`mean` is claimed to commute as well in the doc comment above; that is NOT proved here — `V` has no division.) -/
+theorem covariance_positions_after_postprocessing_sum (flipX : V → V) (vmin vmax : V → V → V) (Q : G) (t : V)
+    (entries : List (Entry G V)) (X : List V) (sumup squeeze : Bool) :
+    getBH flipX vmin vmax (entries.map (Entry.moved Q t)) [obsSensor (X.map fun x => Q • x + t)] sumup squeeze .sum =
+      (getBH flipX vmin vmax entries [obsSensor X] sumup squeeze .sum).map
+        (fun o => { o with data := o.data.map (Q • ·) }) := by
+  rw [getBH_eq_F, getBH_eq_F]
+  exact covariance_positions_after_postprocessing flipX Q t entries X sumup squeeze _
+    (fun f hf l => by
+      have : f = aggList .sum vmin vmax := by
+        have h : Agg.fn (V := V) .sum vmin vmax = some (aggList .sum vmin vmax) := rfl
+        rw [h] at hf; exact (Option.some.inj hf).symm
+      rw [this]; exact sum_commutes_with_rotation vmin vmax Q l)
 end post
 
 /-! #### the order in the model matters: aggregate-then-rotate is NOT covariant
@@ -360,5 +398,106 @@ open Level2.DriverExample in
 example : level1 (G := M3 Int) (V := V3 Int)
     ⟨[⟨3, 0, 0⟩, ⟨4, 0, 0⟩], [1, rotZ90], fun x => x + ⟨1, 0, 0⟩⟩ 1 ⟨10, 0, 0⟩ = ⟨6, 1, 0⟩ := by decide
 end driverCarrier
+
+/-! #### (audit2) position observers after post-processing on the driver's carrier, and the witness at the level of the
+FINAL result.  `covariance_positions_after_postprocessing` had no `_on_driver_carrier` version and no example that
+instantiates its hypothesis `hagg` with an actual reduction; `position_observers_max_not_rotated` is about
+`aggTF maxV (tensor …)`, not about what `getBHF` returns. -/
+section driverCarrierPositions
+open Level2.Example
+
+/-- **C03 after post-processing on the driver's carrier, position observers**: integer matrix operations, octahedral `Q`
+and orientation matrices; `hagg` is the same equivariance condition on the reduction, for the integer matrix `Q` -/
+theorem covariance_positions_after_postprocessing_on_driver_carrier (flipX : V3 Int → V3 Int) (Q : M3 Int) (t : V3 Int)
+    (entries : List EntryZ) (X : List (V3 Int)) (sumup squeeze : Bool) (agg : Option (List (V3 Int) → V3 Int))
+    (hQ : IsOct Q) (heo : ∀ e ∈ entries, e.RotsOct)
+    (hagg : ∀ f, agg = some f → ∀ l : List (V3 Int), f (l.map (Q • ·)) = Q • f l) :
+    getBHF flipX (entries.map (Entry.movedOp Q t)) [obsSensorOp (X.map fun x => Q • x + t)] sumup squeeze agg =
+      (getBHF flipX entries [obsSensorOp X] sumup squeeze agg).map
+        (fun o => { o with data := o.data.map (Q • ·) }) := by
+  obtain ⟨es, rfl⟩ := exists_oct_entries entries heo
+  obtain ⟨q, rfl⟩ := Oct.exists_toM3_eq hQ
+  have h := covariance_positions_after_postprocessing flipX q t es X sumup squeeze agg
+    (fun f hf l => by simpa only [Oct.coe_smul] using hagg f hf l)
+  have e1 := getBHF_mapG octHom flipX (es.map (Entry.moved q t)) [obsSensor (X.map fun x => q • x + t)] sumup squeeze agg
+  have e2 := getBHF_mapG octHom flipX es [obsSensor X] sumup squeeze agg
+  rw [← e1, ← e2] at h
+  simpa only [List.map_map, Function.comp_def, Entry.moved_toM3, List.map_cons, List.map_nil,
+    obsSensor_toM3, Oct.coe_smul] using h
+
+/-- the model's `sum` commutes with EVERY integer matrix (only additivity of `M3.apply`) -/
+theorem sum_commutes_with_integer_matrix (vmin vmax : V3 Int → V3 Int → V3 Int) (Q : M3 Int) (l : List (V3 Int)) :
+    aggList .sum vmin vmax (l.map (Q • ·)) = Q • aggList .sum vmin vmax l := by
+  cases l with
+  | nil => simp only [List.map_nil, aggList]; exact (M3.smul_zero' Q).symm
+  | cons v vs =>
+    simp only [List.map_cons, aggList]
+    induction vs generalizing v with
+    | nil => rfl
+    | cons w ws ih => simp only [List.map_cons, List.foldl_cons, ← M3.smul_add']; exact ih (v + w)
+
+def wX : List (V3 Int) := [⟨1, 0, 0⟩, ⟨2, 0, 0⟩]
+
+theorem wEntries_rotsOct : ∀ e ∈ wEntries, e.RotsOct := by
+  simp [wEntries, wSrc, Entry.RotsOct, Entry.leaves]; decide
+
+theorem w_notBad (X : List (V3 Int)) (f : List (V3 Int) → V3 Int) :
+    ¬ BadInputF wEntries [obsSensorOp (G := M3 Int) X] (some f) := by
+  simp [BadInputF, wEntries, Entry.leaves]
+theorem w_notBad_moved (X : List (V3 Int)) (f : List (V3 Int) → V3 Int) :
+    ¬ BadInputF (wEntries.map (Entry.movedOp rotZ180 0)) [obsSensorOp (G := M3 Int) X] (some f) := by
+  simp [BadInputF, wEntries, Entry.leaves, Entry.movedOp]
+
+-- non-vacuity: ALL hypotheses instantiated (octahedral data, `hagg` for the reduction `sum`), theorem applied, on the
+-- witness scene with sumup and squeeze
+example : getBHF exFlip (wEntries.map (Entry.movedOp rotZ180 0)) [obsSensorOp (wX.map fun x => rotZ180 • x + 0)] true true
+      (some (aggList .sum exMin exMax)) =
+    (getBHF exFlip wEntries [obsSensorOp wX] true true (some (aggList .sum exMin exMax))).map
+      (fun o => { o with data := o.data.map (rotZ180 • ·) }) :=
+  covariance_positions_after_postprocessing_on_driver_carrier exFlip rotZ180 0 wEntries wX true true _ (by decide)
+    wEntries_rotsOct (fun f hf l => by cases hf; exact sum_commutes_with_integer_matrix exMin exMax rotZ180 l)
+
+/-- **the witness at the level of the final result**: with `pixel_agg = max` over position observers both calls are
+accepted, the moved scene returns (−1,0,0), the original one (2,0,0), and (−1,0,0) is not `Q • (2,0,0)` — i.e. the
+conclusion of `covariance_positions_after_postprocessing_on_driver_carrier` is FALSE for `agg = some maxV`, so `hagg`
+cannot be dropped (all other hypotheses hold: `rotZ180` is octahedral, `wEntries_rotsOct`) -/
+theorem position_observers_max_not_rotated_final :
+    ∃ o o', getBHF exFlip (wEntries.map (Entry.movedOp rotZ180 0)) [obsSensorOp (wX.map fun x => rotZ180 • x + 0)]
+        false false (some maxV) = .ok o ∧
+      getBHF exFlip wEntries [obsSensorOp wX] false false (some maxV) = .ok o' ∧
+      o.data = [⟨-1, 0, 0⟩] ∧ o'.data = [⟨2, 0, 0⟩] ∧ o.data ≠ o'.data.map (rotZ180 • ·) := by
+  refine ⟨_, _, getBHF_ok _ _ _ _ _ _ (w_notBad_moved _ _), getBHF_ok _ _ _ _ _ _ (w_notBad _ _), ?_, ?_, ?_⟩
+  · simp only [coreBF, Bool.false_eq_true, if_false, id]
+    exact (congrArg flat4 position_observers_max_not_rotated.1).trans (by decide)
+  · simp only [coreBF, Bool.false_eq_true, if_false, id]
+    exact (congrArg flat4 position_observers_max_not_rotated.2.1).trans (by decide)
+  · simp only [coreBF, Bool.false_eq_true, if_false, id]
+    rw [show flat4 (aggTF maxV (tensor exFlip (wEntries.map (Entry.movedOp rotZ180 0))
+          [obsSensorOp (wX.map fun x => rotZ180 • x + 0)])) = [⟨-1, 0, 0⟩] from
+        (congrArg flat4 position_observers_max_not_rotated.1).trans (by decide),
+      show flat4 (aggTF maxV (tensor exFlip wEntries [obsSensorOp wX])) = [⟨2, 0, 0⟩] from
+        (congrArg flat4 position_observers_max_not_rotated.2.1).trans (by decide)]
+    decide
+end driverCarrierPositions
+
+/-! #### (audit2) the `level2f` driver command at the real numbers
+
+`Driver/Level2FFam.run` evaluates `match PixelAgg.byName name with | some a => getBHF flipX es ks sumup squeeze a` at
+`Float`.  The same expression at `V3 ℝ` with the octahedral group acting on it (Lemmas/Audit2C04.lean) is an instance of
+`covariance_after_postprocessing` — for every reduction name of Model/PixelAgg (`mean, median, std, ptp, …`, or `none`). -/
+theorem covariance_after_postprocessing_named_numpy_reduction (name : String) (a : Option (List (V3 ℝ) → V3 ℝ))
+    (_hname : PixelAgg.byName (α := ℝ) name = some a) (flipX : V3 ℝ → V3 ℝ) (Q : Oct) (t : V3 ℝ)
+    (entries : List (Entry Oct (V3 ℝ))) (sensors : List (Sens Oct (V3 ℝ))) (sumup squeeze : Bool)
+    (hs : ∀ k ∈ sensors, k.WF) :
+    getBHF flipX (entries.map (Entry.moved Q t)) (sensors.map (Sens.moved Q t)) sumup squeeze a =
+      getBHF flipX entries sensors sumup squeeze a :=
+  covariance_after_postprocessing flipX Q t entries sensors sumup squeeze a hs
+
+-- instantiated with `np.std`
+example (flipX : V3 ℝ → V3 ℝ) (Q : Oct) (t : V3 ℝ) (entries : List (Entry Oct (V3 ℝ)))
+    (sensors : List (Sens Oct (V3 ℝ))) (hs : ∀ k ∈ sensors, k.WF) :
+    getBHF flipX (entries.map (Entry.moved Q t)) (sensors.map (Sens.moved Q t)) true false (some (PixelAgg.comp PixelAgg.npStd)) =
+      getBHF flipX entries sensors true false (some (PixelAgg.comp PixelAgg.npStd)) :=
+  covariance_after_postprocessing_named_numpy_reduction "std" _ rfl flipX Q t entries sensors true false hs
 
 end MagpyVerif.C03
